@@ -5,8 +5,8 @@
    and over EVERY field element u, the exceptional inputs included.  The Examples instantiate all
    premises (GF(13); SHA-256 itself), so no statement is vacuous. *)
 From Coq Require Import ZArith List Bool Field.
-From V Require Import C11.SmallFields C13.Sha256 C13.Xmd C13.HashToField C13.Maps
-                      C13.XmdProofs C13.MapProofs C13.Examples.
+From V Require Import Base.Field C11.SmallFields C13.Sha256 C13.Xmd C13.HashToField C13.Maps C13.Poly
+                      C13.XmdProofs C13.MapProofs C13.IsoProofs C13.IsoData C13.Examples.
 Import ListNotations.
 Open Scope Z_scope.
 
@@ -126,3 +126,59 @@ Example C13_ex_swu_gf13 : forall u, exists x y,
   F13_mul y y = F13_add (F13_add (F13_mul (F13_mul x x) x) (F13_mul F13_1 x)) F13_1 /\
   (y <> F13_0 -> F13_parity y = F13_parity u).
 Proof. exact F13_swu_correct. Qed.
+
+(* ---------- Elligator 2 (elligator2.rs) ---------- *)
+(* for EVERY u (u = 0, 1 + Z u^2 = 0, gx1 = 0, t (s + 1) = 0 included): no panic (`expect`s, the is_on_curve debug
+   assertion) and the result is on a x^2 + y^2 = 1 + d x^2 y^2, a = (J + 2) / K, d = (J - 2) / K *)
+Theorem C13_elligator2_correct :
+  forall (K : Type) (zero one : K) (add sub mul : K -> K -> K) (neg inv : K -> K) (div : K -> K -> K)
+         (eqb : K -> K -> bool),
+  field_theory zero one add mul sub neg div inv eq -> (forall a b, eqb a b = true <-> a = b) ->
+  forall (is_qr : K -> bool) (sqrt : K -> option K) (parity : K -> bool) (k j jk ki z ta td : K),
+  k <> zero -> mul jk k = j -> mul ki (mul k k) = one ->
+  mul ta k = add j (add one one) -> mul td k = sub j (add one one) ->
+  (forall x, is_qr x = true -> exists r, sqrt x = Some r /\ mul r r = x) ->
+  sqrt zero = Some zero ->
+  (forall x, x <> zero -> is_qr x = false -> is_qr (mul z x) = true) ->
+  (forall c x, c <> zero -> is_qr (mul (mul c c) x) = is_qr x) ->
+  forall u, exists v w,
+    ell2_coded zero one add sub mul neg inv eqb is_qr sqrt parity k jk ki z ta td u = MOk (v, w) /\
+    add (mul ta (mul v v)) (mul w w) = add one (mul td (mul (mul v v) (mul w w))).
+Proof. exact (@ell2_correct). Qed.
+
+Example C13_ex_elligator2_gf13 : forall u, exists v w,
+  F13_ell2 u = MOk (v, w) /\
+  F13_add (F13_mul F13_5 (F13_mul v v)) (F13_mul w w) =
+  F13_add F13_1 (F13_mul F13_1 (F13_mul (F13_mul v v) (F13_mul w w))).
+Proof. exact F13_ell2_correct. Qed.
+
+(* ---------- isogeny of the Wahby-Boneh map (wb.rs) ---------- *)
+(* if the coefficient-wise identity yn^2 (x^3 + a' x + b') xd^3 = (xn^3 + A xn xd^2 + B xd^3) yd^2 holds in K[x]
+   (`iso_identity`, a closed computation), then EVERY point of E' with non-vanishing denominators is sent to a point of
+   E (by the code as written and by the model alike), and the points where a denominator vanishes -- the kernel -- are
+   sent to the identity by the model (RFC 9380 6.6.3; the shipped code returns (0,0) there: DEFECT-1 in NOTES.md) *)
+Theorem C13_isogeny_maps_curve_to_curve :
+  forall (K : Type) (zero one : K) (add sub mul : K -> K -> K) (neg inv : K -> K) (div : K -> K -> K)
+         (eqb : K -> K -> bool),
+  field_theory zero one add mul sub neg div inv eq -> (forall a b, eqb a b = true <-> a = b) ->
+  forall (a' b' A B : K) (xn xd yn yd : list K),
+  iso_identity zero one add mul eqb a' b' A B xn xd yn yd = true ->
+  forall x y, mul y y = add (add (mul (mul x x) x) (mul a' x)) b' ->
+  (peval zero add mul xd x <> zero -> peval zero add mul yd x <> zero ->
+   exists X Y, iso_apply zero add mul inv eqb xn xd yn yd (Some (x, y)) = Some (X, Y) /\
+               iso_apply_as_coded zero add mul inv eqb xn xd yn yd (Some (x, y)) = Some (X, Y) /\
+               mul Y Y = add (add (mul (mul X X) X) (mul A X)) B) /\
+  ((peval zero add mul xd x = zero \/ peval zero add mul yd x = zero) ->
+   iso_apply zero add mul inv eqb xn xd yn yd (Some (x, y)) = None).
+Proof. exact (@iso_maps_curve_to_curve). Qed.
+
+(* the identity holds for shipped isogeny constants (coq/C13/IsoData.v is regenerated from the compiled Rust
+   constants every run).  Kernel-checked here: the toy isogeny of the ec tests, BLS12-377 G1, BLS12-381 G2
+   (test-curves).  The 11-isogeny of BLS12-381 G1 takes ~9 min per crate under vm_compute on stdlib Z (done once,
+   all seven true); every run re-checks all of them on the extracted model (op config_ok). *)
+Example C13_iso_identity_toy127 : iso_toy127_ok = true.
+Proof. vm_compute; reflexivity. Qed.
+Example C13_iso_identity_bls12_377_g1 : iso_c377_g1_ok = true.
+Proof. vm_compute; reflexivity. Qed.
+Example C13_iso_identity_bls12_381_g2 : iso_t381_g2_ok = true.
+Proof. vm_compute; reflexivity. Qed.
